@@ -5,6 +5,7 @@ import (
 	"math/rand"
 	"os"
 	"path/filepath"
+	"regexp"
 	"strconv"
 	"strings"
 	"time"
@@ -13,8 +14,8 @@ import (
 )
 
 // ---------------------------------------------------------------------------
-// e2e.C05.documents: DOCUMENT workbooks (YAML) converted concurrently, one of them with a value that cannot be parsed
-// three structs deep (the error travels up through every level while the other books' goroutines keep parsing):
+// e2e.C05.documents: DOCUMENT workbooks (YAML) converted concurrently, four of them with a value that cannot be
+// parsed three structs deep (the error travels up through every level while the other books' goroutines keep parsing):
 // GenProto once, GenConf several times under a watchdog. Every run must return, and return the same rendered error —
 // what the error says about the failing field is that field's, not another goroutine's. Under the race-detector build
 // an unsynchronised access on this path ends the worker.
@@ -33,7 +34,9 @@ func c05GoodDoc(i, entries int) string {
 	return sb.String()
 }
 
-const c05BadDoc = "\"@sheet\": \"@TABLEAU\"\n---\n\"@sheet\": \"@BadConf\"\nID: uint32\nOuter:\n  \"@type\": \"{Outer}\"\n  ID: uint32\n  Mid:\n    \"@type\": \"{Mid}\"\n    ID: uint32\n    Inner:\n      \"@type\": \"{Inner}\"\n      ID: uint32\n      Val: \"int32|{range:\\\"1,9\\\"}\"\n---\n\"@sheet\": BadConf\nID: 1\nOuter:\n  ID: 2\n  Mid:\n    ID: 3\n    Inner:\n      ID: 4\n      Val: not-a-number\n"
+const c05BadDoc = "\"@sheet\": \"@TABLEAU\"\n---\n\"@sheet\": \"@BadConf%d\"\nID: uint32\nOuter:\n  \"@type\": \"{Outer}\"\n  ID: uint32\n  Mid:\n    \"@type\": \"{Mid}\"\n    ID: uint32\n    Inner:\n      \"@type\": \"{Inner}\"\n      ID: uint32\n      Val: \"int32|{range:\\\"1,9\\\"}\"\n---\n\"@sheet\": BadConf%d\nID: 1\nOuter:\n  ID: 2\n  Mid:\n    ID: 3\n    Inner:\n      ID: 4\n      Val: not-a-number\n"
+
+var c05BadNumRe = regexp.MustCompile(`(?i)(bad(?:_?conf)?)[0-9]+`)
 
 func init() {
 	regStream("e2e.C05.documents", func(r *rand.Rand, n int, emit func(string, ...string)) {
@@ -52,8 +55,11 @@ func init() {
 					panic(err)
 				}
 			}
-			if err := os.WriteFile(filepath.Join(w.In, "Bad.yaml"), []byte(c05BadDoc), 0o644); err != nil {
-				panic(err)
+			// several failing books of one shape: whichever fails first, the rendered error is the same up to its number
+			for i := 1; i <= 4; i++ {
+				if err := os.WriteFile(filepath.Join(w.In, fmt.Sprintf("Bad%d.yaml", i)), []byte(fmt.Sprintf(c05BadDoc, i, i)), 0o644); err != nil {
+					panic(err)
+				}
 			}
 			ro := runOpts{Formats: []format.Format{format.YAML}}
 			if err := w.genProto(ro); err != nil {
@@ -67,10 +73,13 @@ func init() {
 					done <- "accepted"
 					return
 				}
-				text := strings.ReplaceAll(err.Error(), w.Root, "<ROOT>")
+				text := c05BadNumRe.ReplaceAllString(strings.ReplaceAll(err.Error(), w.Root, "<ROOT>"), "${1}#")
 				if k == 0 {
 					first = text
 				} else if text != first {
+					if os.Getenv("VERIF_DEBUG") != "" {
+						println("FIRST", first, "\nTHIS ", text)
+					}
 					done <- "differ run " + strconv.Itoa(k)
 					return
 				}
